@@ -121,6 +121,10 @@ def run(ctx, rep):
     _, strs = consts_in(F, [b])
     need = {"CATALOG", "TRACK", "INDEX", "ISRC", "FLAGS", "PRE"}
     rep.check("C20.keys", "parser recognises CATALOG / TRACK / INDEX / ISRC / FLAGS PRE", need <= strs, loc_of(b), str(sorted(strs)), "keywords matched: %s" % sorted(strs))
+    trims = [strip_generics(callee_name(t)).rsplit("::", 1)[-1] for _, t in b.calls() if re.search(r"<impl str>::trim(_start|_end|_matches|_start_matches|_end_matches)?$", callee_name(t))]
+    lines = [t for _, t in b.calls() if re.search(r"<impl str>::lines$", callee_name(t))]
+    rep.check("C20.keys", "every line is trimmed on both sides before it is matched (spacing accepted by the format)", trims == ["trim"] and len(lines) == 1, loc_of(b), str(trims),
+              "lines are split with %s and trimmed with %s: trailing or leading blanks stay on the keyword / value (FLAGS PRE is no longer recognised, positions fail to parse)" % ([callee_name(t)[-12:] for t in lines], trims))
     news = [t for _, t in b.calls() if re.search(r"parse::new$", strip_generics(callee_name(t)))]
     rep.check("C20.keys", "a new track record is created only by the TRACK line", len(news) == 1, loc_of(b), "%d constructions" % len(news),
               "the work-in-progress track is rebuilt %d times: fields set by earlier lines of the same track (FLAGS, ISRC) are lost" % len(news))
